@@ -10,12 +10,30 @@ import (
 	"golang.org/x/tools/go/ssa"
 )
 
+func typeShortName(t types.Type) string {
+	if p := pointee(t); p != nil {
+		t = p
+	}
+	if n, ok := types.Unalias(t).(*types.Named); ok {
+		return n.Obj().Name()
+	}
+	return ""
+}
+
 func shortCallee(c *ssa.CallCommon) string {
 	if c.IsInvoke() {
+		if tn := typeShortName(c.Value.Type()); tn != "" {
+			return tn + "." + c.Method.Name()
+		}
 		return c.Method.Name()
 	}
 	if f := c.StaticCallee(); f != nil {
 		n := f.Name()
+		if f.Signature.Recv() != nil {
+			if tn := typeShortName(f.Signature.Recv().Type()); tn != "" {
+				return tn + "." + n
+			}
+		}
 		return n
 	}
 	if b, ok := c.Value.(*ssa.Builtin); ok {
@@ -53,7 +71,7 @@ func (x *Exec) call(fr *Frame, st *State, c *ssa.CallCommon, instr ssa.Instructi
 		return x.builtin(fr, st, b, c, args, pos, resT)
 	}
 	name := shortCallee(c)
-	ord := fr.nextOrd("call:" + name)
+	ord := fr.siteOrd("call:"+name, instr)
 	site := fmt.Sprintf("call:%s#%d", name, ord)
 
 	var recv *Val
@@ -96,7 +114,19 @@ func (x *Exec) call(fr *Frame, st *State, c *ssa.CallCommon, instr ssa.Instructi
 	if ct == nil && callee != nil {
 		ct = x.eng.contractFor(callee)
 	}
-	x.atSite(fr, st, "before:"+site, -1, nil, nil)
+	av := map[string]Val{}
+	at := map[string]types.Type{}
+	for k, a := range args {
+		if a.Tup == nil && k < len(c.Args) {
+			av[fmt.Sprintf("arg%d", k)] = a
+			at[fmt.Sprintf("arg%d", k)] = c.Args[k].Type()
+		}
+	}
+	if recv != nil {
+		av["recv"] = *recv
+		at["recv"] = c.Value.Type()
+	}
+	x.atSite(fr, st, "before:"+site, -1, av, at)
 	var res Val
 	switch {
 	case callee != nil && ((ct != nil && ct.Inline) || (ct == nil && x.eng.isInlineCandidate(callee) && fr.depth < 3)):
@@ -115,6 +145,10 @@ func (x *Exec) call(fr *Frame, st *State, c *ssa.CallCommon, instr ssa.Instructi
 	}
 	ev := map[string]Val{}
 	et := map[string]types.Type{}
+	for k, v := range av {
+		ev[k] = v
+		et[k] = at[k]
+	}
 	if res.Tup == nil && resT != nil {
 		if tup, isTup := resT.(*types.Tuple); !isTup || tup.Len() > 0 {
 			if !isTup {
@@ -673,7 +707,7 @@ func (x *Exec) builtin(fr *Frame, st *State, b *ssa.Builtin, c *ssa.CallCommon, 
 		}
 		return Val{T: t}
 	case "close":
-		x.atSite(fr, st, "close", fr.nextOrd("close"), map[string]Val{"ch": args[0]}, map[string]types.Type{"ch": c.Args[0].Type()})
+		x.atSite(fr, st, "close", fr.siteOrd("close", fr.curInstr), map[string]Val{"ch": args[0]}, map[string]types.Type{"ch": c.Args[0].Type()})
 		return Val{}
 	case "print", "println":
 		return Val{}
@@ -804,7 +838,7 @@ func (x *Exec) copyOp(fr *Frame, st *State, c *ssa.CallCommon, args []Val) Val {
 // ------------------------------------------------------------------ go / sites / own clauses
 
 func (x *Exec) spawn(fr *Frame, st *State, g *ssa.Go) {
-	ord := fr.nextOrd("go")
+	ord := fr.siteOrd("go", g)
 	c := g.Common()
 	callee := c.StaticCallee()
 	var ct *FuncContract
